@@ -222,6 +222,14 @@ def execute(scen):
         ever_hidden = set()
 
         initial_ok = dict(pre_ok)
+        # the configuration the definition declares (default_on) satisfies the rule <=> the driver starts in a state that does
+        for vn, vs_ in vspecs.items():
+            declared = ["On" if (vs_["default_on"] and e["name"] in vs_["default_on"]) else "Off" for e in vs_["elements"].values()]
+            if rule_ok(vs_["rule"], declared) and not initial_ok[vn]:
+                viol.append({"clause": "C09.oneof" if vs_["rule"] == "OneOfMany" else "C09.atmost",
+                             "detail": f"{vn} ({vs_['rule']}) is declared with default_on={vs_['default_on']!r} over switches {[e['name'] for e in vs_['elements'].values()]} "
+                                       f"and starts as {cur(vn)}", "facts": dict(facts, rule=vs_["rule"], initial=True)})
+                break
         hidden = set()
         vetoed = {tuple(x) for x in scen.get("veto_handlers", [])}
 
